@@ -35,6 +35,8 @@ class Cfg:
         self.p_halt = 0.08
         self.dead_code = 0.15       # probability that a block keeps statements after one that ends the control flow
         self.reader_shaped = False  # only op shapes a binary SSB reader delivers (int flags for BranchEdit/Variation…)
+        self.goto_style = 0.0       # share of routines written with labels, `if (c) { jump @l; }` and jumps only: the compiler folds
+                                    # lone jumps into the branch ops, which gives layouts of flow graphs that structured source never yields
         for k, v in kw.items():
             setattr(self, k, v)
 
@@ -324,8 +326,41 @@ class ProgGen:
         return {"t": "for", "init": self.assign(), "header": self.header(), "inc": self.assign(), "body": self.block(depth, True, in_case)}
 
     # ---- routines / program
+    def goto_body(self) -> list[dict]:
+        """labels, conditional lone jumps, jumps and plain ops at the top level of a routine (all labels local and defined)"""
+        self.hit("goto_routine")
+        nl = self.r.randint(1, 4)
+        labels = [self.new_label() for _ in range(nl)]
+        n = self.r.randint(2, 5 + self.cfg.max_stmts)
+        body: list[dict] = []
+        for _ in range(n):
+            c = self.r.random()
+            if c < 0.4:
+                body.append(self.plain())
+            elif c < 0.75:
+                hs = [self.header() for _ in range(self.r.choice([1, 1, 1, 2]))]
+                nm = self.r.choice(labels)
+                self.jumps.append(nm)
+                body.append({"t": "if", "branches": [{"not": self.r.random() < 0.25, "headers": hs, "body": [{"t": "jump", "name": nm}]}], "else": None})
+            elif c < 0.85:
+                nm = self.r.choice(labels)
+                self.jumps.append(nm)
+                body.append({"t": "jump", "name": nm})
+            elif c < 0.93:
+                body.append({"t": "ctrl", "k": self.r.choice(["return", "end", "hold"])})
+            elif self.cfg.max_depth > 1:
+                body.append(self.if_(self.cfg.max_depth - 1, False, False))
+        for nm in labels:
+            body.insert(self.r.randint(0, len(body)), {"t": "label", "name": nm})
+            self.label_pool.append(nm)
+        if self.r.random() < 0.6:
+            body.append({"t": "ctrl", "k": self.r.choice(["return", "end", "hold"])})
+        return body
+
     def routine_body(self) -> list[dict]:
         cfg = self.cfg
+        if cfg.goto_style and self.r.random() < cfg.goto_style:
+            return self.goto_body()
         n = self.r.choice([0, 1, 2, 3, 4, cfg.max_stmts, cfg.max_stmts + 3])
         body = self.trim_dead([self.stmt(0, False, False) for _ in range(n)])
         if not body:
